@@ -89,3 +89,13 @@ claim("C08", "path rules on MIR (guard obligations on the demand-analysis callba
       " Totality of the back end on error-free programs (first sentence) is not decided.",
       "trusted: rustc MIR, fact dumper, rules/guards.py; assumes indexmap insert/swap_remove semantics",
       "DESIGN.md section 4, C08")
+claim("C07", "must-pass-through on MIR (validation dominates constant construction) + reachability with correlated predicates",
+      "'An expression that would overflow, divide by zero or fail a conversion at run time is never silently given a value at compile "
+      "time': in the semantic const evaluator every constant built from a BigInt arithmetic result passes validate_literal (or "
+      "canonical_felt252 on the felt252 branch), division and remainder are reached only after the zero-divisor test that reports "
+      "DivisionByZero, the div_rem quotient is validated; in the lowering const folder folded felt252 results pass canonical_felt252 / "
+      "field_div and folded checked-integer results pass TypeRange::normalized with the arm selected from its result (two reasoned "
+      "exceptions: wide_mul, bounded_int_add/sub)." + DECIDES + " Agreement of the BigInt arithmetic with the libfuncs on values "
+      "(division rounding, remainder sign, conversions) is not decided.",
+      "trusted: rustc MIR, fact dumper; assumes validate_literal and canonical_felt252 implement the type ranges / the field correctly",
+      "DESIGN.md section 4, C07")
